@@ -1,5 +1,6 @@
 import Prom.Base.Wire
 import Prom.Model.StaticMetric
+import Prom.Model.StaticFlush
 /- line-protocol handlers: area `sm` (C19) -/
 namespace Prom.Drv
 open Prom Prom.SM
@@ -17,23 +18,48 @@ def parseDecl (s : String) : Option Decl :=
 
 def sortByKey (m : List (Str × Str)) : List (Str × Str) := stableSortBy (fun a b => strLe a.1 b.1) m
 
+/-- `sm decl=<decl> ops=<op>,<op>,…` with `op` = `f` (flush) or `i:<f1.f2.…>:<n>` (inc_by n through a
+    field path): runs the generated LOCAL struct tree (`Model/StaticFlush.lean`) and prints, for every
+    distinct child in leaf order, `k:v,…=<value>+<pending over all its leaves>` -/
+def smFlushHandle (d : Decl) (ops : String) : String :=
+  let parseOp (o : String) : Option TOp :=
+    match o.splitOn ":" with
+    | ["f"] => some .flush
+    | ["i", path, n] =>
+      match (path.splitOn ".").mapM (fun x => if x == "~" then some [] else parseHexBytes x), n.toNat? with
+      | some p, some n => some (.inc p n)
+      | _, _ => none
+    | _ => none
+  match (ops.splitOn ",").mapM parseOp with
+  | none => "bad-op"
+  | some ops =>
+    let t := (LocalTree.init d (fun _ => 0)).run ops
+    let children := (t.leaves.map (·.child)).eraseDups
+    "ok " ++ ";".intercalate (children.map fun c =>
+      ",".intercalate ((sortByKey c).map fun kv => showHexElem kv.1 ++ ":" ++ showHexElem kv.2)
+        ++ "=" ++ toString (t.store c) ++ "+"
+        ++ toString (((t.leaves.filter (·.child == c)).map (·.pending)).sum))
+
 def smHandle (fs : List String) : String :=
-  match (field fs "decl").bind parseDecl, field fs "acc", field fs "path", (field fs "order") with
-  | some d, some acc, some path, some order =>
-    match (path.splitOn ".").mapM (fun x => if x == "~" then some [] else parseHexBytes x), (order.splitOn ",").mapM (fun x => if x == "~" then some [] else parseHexBytes x) with
-    | some p, some backing =>
-      let fieldPath : Option (List Str) :=
-        if acc == "tryget" then tryGetPath d p
-        else if acc == "get" then (d.zip p).mapM fun (l, v) => getField l v
-        else some p
-      match fieldPath.bind (resolve d []) with
-      | none => "none"
-      | some m =>
-        -- the vector resolves the map through ITS declared names
-        match childValues backing m with
-        | some _ => "ok " ++ ",".intercalate ((sortByKey m).map fun kv => showHexElem kv.1 ++ ":" ++ showHexElem kv.2)
-        | none => "panic"
-    | _, _ => "bad-op"
-  | _, _, _, _ => "bad-op"
+  match (field fs "decl").bind parseDecl, field fs "ops" with
+  | some d, some ops => smFlushHandle d ops
+  | _, _ =>
+    match (field fs "decl").bind parseDecl, field fs "acc", field fs "path", (field fs "order") with
+    | some d, some acc, some path, some order =>
+      match (path.splitOn ".").mapM (fun x => if x == "~" then some [] else parseHexBytes x), (order.splitOn ",").mapM (fun x => if x == "~" then some [] else parseHexBytes x) with
+      | some p, some backing =>
+        let fieldPath : Option (List Str) :=
+          if acc == "tryget" then tryGetPath d p
+          else if acc == "get" then (d.zip p).mapM fun (l, v) => getField l v
+          else some p
+        match fieldPath.bind (resolve d []) with
+        | none => "none"
+        | some m =>
+          -- the vector resolves the map through ITS declared names
+          match childValues backing m with
+          | some _ => "ok " ++ ",".intercalate ((sortByKey m).map fun kv => showHexElem kv.1 ++ ":" ++ showHexElem kv.2)
+          | none => "panic"
+      | _, _ => "bad-op"
+    | _, _, _, _ => "bad-op"
 
 end Prom.Drv
